@@ -6,6 +6,7 @@
 #include <cstdio>
 #include <fcntl.h>
 
+#include <foonathan/memory/joint_allocator.hpp>
 #include <foonathan/memory/memory_pool.hpp>
 #include <foonathan/memory/smart_ptr.hpp>
 
@@ -172,6 +173,35 @@ namespace
             Ev("ceq").i("a", 0).i("c", 2).i("eq", a == c ? 1 : 0).i("ba", 0).i("bc", 0);
             Ev("ceq").i("a", 1).i("c", 2).i("eq", b == c ? 1 : 0).i("ba", 1).i("bc", 0);
             Ev("cend").u("leaf_live", 0).u("max_node_req", 0).u("constant", 0).s("name", "anyeq");
+            return;
+        }
+        if (x.str("cont") == "sharedeq")
+        {
+            // shared allocators (joint_allocator): two std_allocators over the same joint memory are equal - memory
+            // of one may be released through the other - and differ from one over another joint object; != is the
+            // negation of ==
+            struct JJ : fm::joint_type<JJ>
+            {
+                explicit JJ(fm::joint j) : fm::joint_type<JJ>(j) {}
+            };
+            auto j1 = fm::allocate_joint<JJ>(la, fm::joint_size(64));
+            auto j2 = fm::allocate_joint<JJ>(la, fm::joint_size(64));
+            fm::std_allocator<int, fm::joint_allocator>  a{fm::joint_allocator(*j1)}, b{fm::joint_allocator(*j2)};
+            fm::std_allocator<char, fm::joint_allocator> c{fm::joint_allocator(*j1)};
+            fm::std_allocator<int, fm::joint_allocator>  d(c); // rebound copy
+            Ev("cbox").s("name", name).b("ok", true).i("prop", 0).b("single", false);
+            Ev("ceq").i("a", 0).i("c", 1).i("eq", a == b ? 1 : 0).i("ba", 0).i("bc", 1);
+            Ev("ceq").i("a", 0).i("c", 2).i("eq", a == d ? 1 : 0).i("ba", 0).i("bc", 0);
+            Ev("ceq").i("a", 1).i("c", 2).i("eq", b == d ? 1 : 0).i("ba", 1).i("bc", 0);
+            Ev("ceq").i("a", 0).i("c", 1).i("eq", a != b ? 0 : 1).i("ba", 0).i("bc", 1);
+            Ev("ceq").i("a", 0).i("c", 2).i("eq", a != d ? 0 : 1).i("ba", 0).i("bc", 0);
+            // the same for the plain stateful case
+            fm::std_allocator<int, vleaf> p(la), q(lb), r(la);
+            Ev("ceq").i("a", 0).i("c", 1).i("eq", p != q ? 0 : 1).i("ba", 0).i("bc", 1);
+            Ev("ceq").i("a", 0).i("c", 2).i("eq", p != r ? 0 : 1).i("ba", 0).i("bc", 0);
+            j1.reset();
+            j2.reset();
+            Ev("cend").u("leaf_live", la.live.size()).u("max_node_req", 0).u("constant", 0).s("name", "sharedeq");
             return;
         }
         auto it = registry().find(name);
